@@ -644,6 +644,26 @@ func VerifyLinkSignatureThesholds(layout Layout,
 }
 
 /*
+escapeGlobPattern returns a pattern that filepath.Glob matches against the
+passed name only, i.e. the characters that are special in a pattern ('*', '?',
+'[' and, where it is not the path separator, '\\') are escaped.
+*/
+func escapeGlobPattern(name string) string {
+	var escaped strings.Builder
+	for _, r := range name {
+		switch {
+		case r == '*' || r == '?' || r == '[':
+			escaped.WriteString("[" + string(r) + "]")
+		case r == '\\' && filepath.Separator != '\\':
+			escaped.WriteString("\\\\")
+		default:
+			escaped.WriteRune(r)
+		}
+	}
+	return escaped.String()
+}
+
+/*
 LoadLinksForLayout loads for every Step of the passed Layout a Metablock
 containing the corresponding Link.  A base path to a directory that contains
 the links may be passed using linkDir.  Link file names are constructed,
@@ -677,7 +697,9 @@ func LoadLinksForLayout(layout Layout, linkDir string) (map[string]map[string]Me
 		linksPerStep := make(map[string]Metadata)
 		// Since we can verify against certificates belonging to a CA, we need to
 		// load any possible links
-		linkFiles, err := filepath.Glob(path.Join(linkDir, fmt.Sprintf(LinkGlobFormat, step.Name)))
+		// The step name and the link directory are names, not patterns
+		linkFiles, err := filepath.Glob(path.Join(escapeGlobPattern(linkDir),
+			fmt.Sprintf(LinkGlobFormat, escapeGlobPattern(step.Name))))
 		if err != nil {
 			return nil, err
 		}
